@@ -123,10 +123,15 @@ func (f *fakeDocker) doneTurn(id string) {
 	}
 	f.mu.Lock()
 	ch, ok := f.arrived[id]
-	f.mu.Unlock()
 	if ok {
 		close(ch)
+		f.turn++
+		if f.turn == len(f.Order) {
+			// every request of this round completed: the next SelectLogs starts a new round
+			f.arrived, f.turn = nil, 0
+		}
 	}
+	f.mu.Unlock()
 }
 
 // OpenedSorted returns the opened ids in sorted order.
